@@ -46,7 +46,9 @@ def search_main():
             except Exception:
                 continue
             bad = False
-            if name.startswith("xpost:unexpected"):
+            if "verdict" in r and not name.startswith("post#") and not name.startswith("xpost:unexpected"):
+                bad = bool(r["verdict"])    # the runner carries its own oracle (any clause of the contract)
+            elif name.startswith("xpost:unexpected"):
                 bad = r.get("exc") is not None and type(r["exc"]).__name__ == name.split()[-1]
             elif name.startswith("post#"):
                 try:
